@@ -2,3 +2,4 @@ import Echse.Model.Bitint
 import Echse.Model.Instant
 import Echse.Spec.Cal
 import Echse.Model.Strpf
+import Echse.Model.Scale
